@@ -50,6 +50,13 @@ def run(tier, seed, scale=1.0):
     r3.counters = {"setsrvcb_" + k: v for k, v in r3.counters.items() if k in ("cases", "reentrant_set_servers", "requests", "transmissions")}
     r3.fps = set()
     res.merge(r3)
+    # the socket-heavy histories of C10's workload (many sockets at once, legacy pollers with their 16-slot tables):
+    # only the memory / undefined-behaviour / exactly-once monitors matter here
+    n_sk = int((8000 if tier == "quick" else 500000) * scale)
+    r4 = vdriver.explore(common.spec("simnet", "sockets", seed), n_sk, chunk=max(100, n_sk // 64), chunk_timeout=600)
+    r4.counters = {"sockets_" + k: v for k, v in r4.counters.items() if k in ("cases", "requests", "transmissions", "note.sockets_many_at_once")}
+    r4.fps = set()
+    res.merge(r4)
     return common.finish(PROP, tier, seed, "exploration", res, own, RULE, t0,
                          min_conclusive=int(5000 * scale),
                          assumptions=["virtual socket layer and servers model a UDP/TCP network faithfully enough",
